@@ -80,6 +80,20 @@ var seqMutations = []string{
 	"(insert-sorted 'vector v (lambda (a b) (error 'boom)) %X)",
 	"(zip 'vector v w v)",
 	"(reverse 'vector v)",
+	// callbacks that grow the very sequence the builtin is working on
+	"(set 'l (insert-sorted 'list v (lambda (a b) (append! v 9) (< a b)) %I))",
+	"(set 'w (insert-sorted 'vector v (lambda (a b) (append! v 9) (< a b)) %I))",
+	"(set 'l (insert-sorted 'list v < %I (lambda (x) (append! v 9) x)))",
+	"(search-sorted (length v) (lambda (i) (append! v 9) (> (aref v i) %I)))",
+	"(set 'l (map 'list (lambda (x) (append! v x) x) v))",
+	"(set 'l (select 'list (lambda (x) (elpspath:?del! v 0) true) v))",
+	"(set 'l (reject 'list (lambda (x) (append! v 1 2 3) false) v))",
+	"(set 'l (zip 'list v (map 'list (lambda (x) (append! v x) x) v)))",
+	"(set 'w (stable-sort < v (lambda (x) (append! v 9) x)))",
+	"(set 'l (foldr (lambda (x a) (elpspath:?del! v 0) (cons x a)) () v))",
+	"(all? (lambda (x) (elpspath:?del! v 0) true) v)",
+	"(set 'l (insert-index 'list v %I %X))",
+	"(set 'l (slice 'list v 0 (length v)))",
 }
 
 var seqReaders = []string{
@@ -109,6 +123,8 @@ var seqReaders = []string{
 	"(empty? v)", "(to-bytes (to-string b))", "(append-bytes b \"x\")",
 	"(elpspath:?set v 0 1)", "(elpspath:?del v 0)",
 	"(search-sorted (length v) (lambda (i) (aref v i)))",
+	"(format-string \"{}\" l)", "(format-string \"{} {}\" v w)", "(json:dump-string l)", "(map 'list identity l)", "(equal? l l)",
+	"(dotimes (i (length l)) (nth l i))", "(reverse 'list l)", "(concat 'list l l)", "(stable-sort < (append 'vector l))",
 }
 
 func (q Seq) setup() string {
@@ -213,6 +229,9 @@ func checkSeqInner(q Seq, ctx recorder, wd, wdAlone time.Duration) *vcommon.Fail
 			return vcommon.Failf("panic/sequence/"+panicClass(msg)+siteSuffix(panicSite(gs)),
 				"%s answered the internal-panic condition: %s\nsequence (MaxAlloc %d, every reader wrapped in ignore-errors):\n  %s\n%s", what, msg, q.MaxAlloc, hist, clip(gs, 2500))
 		}
+		if h, i := findNilCell(o.res); h != nil {
+			return vcommon.Failf("nil-cell/sequence/"+headName(last(trace)), "%s returned a value holding a Go-nil *LVal (cell %d of a %v): the next reader of it dereferences nil\nsequence (MaxAlloc %d):\n  %s", what, i, h.Type, q.MaxAlloc, hist)
+		}
 		if what != "readers" && what != "setup" {
 			if o.res.Type == lisp.LError {
 				refused++
@@ -252,4 +271,22 @@ func checkSeqInner(q Seq, ctx recorder, wd, wdAlone time.Duration) *vcommon.Fail
 		ctx.Note(fmt.Sprintf("MaxAlloc %d, %d mutations applied, %d refused:\n  %s", q.MaxAlloc, applied, refused, strings.Join(trace, "\n  ")))
 	}
 	return nil
+}
+
+func last(l []string) string {
+	if len(l) == 0 {
+		return ""
+	}
+	return l[len(l)-1]
+}
+
+// headName names the builtin a mutation template applies (skipping set).
+func headName(src string) string {
+	for _, m := range reCallName.FindAllStringSubmatch(src, -1) {
+		if m[1] == "set" {
+			continue
+		}
+		return m[1]
+	}
+	return "unknown"
 }
